@@ -38,7 +38,10 @@ def run(srv, root, files, pos, heavy_every=4, open_for_diagnostics=True):
     """-> dict section -> value (JSON-able, order-normalised)."""
     b = {}
     rels = sorted(files)
-    b["indexed"] = sorted(os.path.relpath(p, root) for p in srv.s.workspace if p.startswith(root))
+    # files with a Fortran source suffix only: a header or text file the client has opened is served as a document
+    # without being part of the start-up index, that is not a difference between two servers
+    b["indexed"] = sorted(os.path.relpath(p, root) for p in srv.s.workspace if p.startswith(root)
+                          and os.path.splitext(p)[1].lower() in (".f", ".for", ".f77", ".f90", ".f95", ".f03", ".f08", ".f18", ".ftn", ".fpp", ".f23"))
     diags = {}
     for rel in rels:
         p = os.path.join(root, rel)
